@@ -148,6 +148,12 @@ pub fn check_run(case: &Case, run: &Run) -> Result<(bool, bool), Fail> {
     if run.final_pair != want_final {
         return Err(Fail::new("final-pair", format!("after joining all threads the pair is {:?}, expected {want_final:?}", run.final_pair)));
     }
+    if run.bystander_pair != (0, voucher_bits(VOUCH.vouch(0))) || run.bystander_sequence != 0 {
+        return Err(Fail::new(
+            "instances-share-state",
+            format!("a new AtomicBaseTime created after the run reads {:?} with sequence {} instead of the epoch pair", run.bystander_pair, run.bystander_sequence),
+        ));
+    }
     if run.final_sequence != expected_commits.len() as u64 {
         return Err(Fail::new("final-sequence", format!("final sequence number is {}, {} updates were accepted", run.final_sequence, expected_commits.len())));
     }
